@@ -205,7 +205,8 @@ let pnames = [| "p"; "q"; "r"; "w" |]
 let default_kind k j : M.expr * string =
   match k mod 7 with
   | 0 -> (lit_int (100 + j), "lit")
-  | 1 -> (lit_str ("d" ^ string_of_int j), "str")
+  (* a text with characters its spelling has to escape (quote, backslash, braces), every other time *)
+  | 1 -> (lit_str (if j mod 2 = 0 then "d" ^ string_of_int j else "d'" ^ string_of_int j ^ "\"{\\}q"), "str")
   | 2 -> (var "n", "callervar")
   | 3 -> (add (var "n") (lit_int (10 + j)), "expr")
   | 4 -> (var "g", "global")
